@@ -382,6 +382,35 @@ def run_children(ctx, cases, workers=4):
     return out
 
 
+CODEGEN_SCENARIO = {"kind": "codegen-scenario", "name": "Tank", "template": MODELS["Tank"],
+                    "o1": {"codegen": True}, "o2": {"codegen": True, "replace_parameter_values": True}}
+
+
+def run_codegen_scenario(ctx, sc):
+    """transfer(o1) completes; transfer(o2) is killed after its shared libraries are written and before the
+    cache file is opened; transfer(o1) again.  Three processes (dlopen caches).  Returns (tag, why, results)."""
+    import tempfile
+    d = tempfile.mkdtemp(prefix="cg_", dir=ctx.tmp)
+    res = []
+    for ph in (1, 2, 3):
+        c = {"kind": "codegen", "phase": ph, "dir": d, "name": sc["name"], "template": sc["template"],
+             "o1": sc["o1"], "o2": sc["o2"]}
+        res.append(core.run_child(ctx, "c21", [c], timeout=900)[0])
+    r = res[2]
+    if res[0].get("out") != "Model" or res[1].get("out") != "Died":
+        return "harness:codegen", "scenario could not be set up: %s" % json.dumps(res[:2])[:300], res
+    if r.get("out") == "Raised":
+        return "codegen:raised:%s" % r.get("exc"), "transfer_model raised %s after a codegen write was interrupted between the libraries and the cache file" % r.get("exc"), res
+    if r.get("out") in ("Loaded", "Recompiled") and not r.get("sig_ok"):
+        return ("codegen:stale-cache-new-libs",
+                "codegen mode: after a write for options o2 was interrupted between the shared libraries and the cache file, "
+                "transfer_model(o1) served (%s) the old cache file with the NEW libraries: residual %s, fresh compile %s"
+                % (r["out"], json.dumps(r.get("sig"))[:120], json.dumps(r.get("ref"))[:120]), res)
+    if r.get("out") not in ("Loaded", "Recompiled"):
+        return "harness:codegen", json.dumps(r)[:300], res
+    return None, None, res
+
+
 def minimise(ctx, case, idx):
     """try the 3-op replay [transfer; cut k; transfer] / [crash; transfer] first, else the history prefix"""
     ops = case["ops"][:idx + 1]
@@ -544,7 +573,21 @@ def run(ctx):
 
     ph["corr"] = round(time.time() - t0, 1)
     # broken tie / probe but no failing history found above: direct search on the offsets the tables speak about
-    core.replay_known(ctx, lambda e: judge(e["replay"], core.run_child(ctx, "c21", [e["replay"]])[0]) is not None)
+    # ---- codegen mode (thorough only: three gcc builds) -----------------------------------------------
+    if ctx.tier == "thorough":
+        tag, why, cres = run_codegen_scenario(ctx, CODEGEN_SCENARIO)
+        ctx.notes["codegen_scenario"] = {"tag": tag, "results": cres}
+        if tag:
+            core.report(ctx, tag, why, {"input": CODEGEN_SCENARIO, "observed": cres[-1]})
+
+    def still_fails(e):
+        rp = e["replay"]
+        if rp.get("kind") == "codegen-scenario":
+            if ctx.tier != "thorough":
+                return None                      # three gcc builds: replayed in the thorough tier only
+            return ctx.notes.get("codegen_scenario", {}).get("tag") == e["tag"]
+        return judge(rp, core.run_child(ctx, "c21", [rp])[0]) is not None
+    core.replay_known(ctx, still_fails)
 
     ctx.cov["evaluations"] = n_transfers
     ctx.cov["distinct_nontrivial"] = len(nontrivial)
@@ -570,13 +613,18 @@ def run(ctx):
         "pickle.load at every truncation offset of real cache files lies in {EOFError, UnpicklingError}) and H (outcome class of "
         "the real transfer_model per op equals the model's on the table extracted from api.py)",
         "mtimes: the harness stamps the cache file with the logical clock after each op, every edit gets a later mtime (C20's premise)",
-        "codegen mode (shared libraries written before the cache file) is not exercised: gcc per model is too slow for the tiers",
+        "codegen mode (shared libraries overwritten before the cache file) is not in the Coq model; one real scenario (write for "
+        "other options killed between the libraries and the cache file, then the old options again) runs in the thorough tier only",
     ]
 
 
 def replay(ctx, path):
     rec = json.load(open(path))
     case = rec.get("input") or rec.get("replay")
+    if case.get("kind") == "codegen-scenario":
+        tag, why, _r = run_codegen_scenario(ctx, case)
+        print("replay:", ("VIOLATED [%s] %s" % (tag, why)) if tag else "property holds on the codegen scenario")
+        return 1 if tag else 0
     res = core.run_child(ctx, "c21", [case])[0]
     v = judge(case, res)
     print("replay:", ("VIOLATED %s" % v[2]) if v else "property holds on this history",
